@@ -186,6 +186,34 @@ def relpath(p):
     return p
 
 
+def anchor_files(prop):
+    """the files a property is anchored in (properties.jsonl)"""
+    for l in open(os.path.join(VERIF, "properties.jsonl")):
+        pj = json.loads(l)
+        if pj["id"] == prop:
+            return set(pj["anchors"]["files"])
+    raise AnalysisBroken("property %s not found" % prop)
+
+
+def scope_to_anchors(r, prop, floor=1):
+    """Keep only the findings of a whole-tree rule that lie in the files the property is anchored in: the rule decides a clause of this
+    property at those sites; what it finds elsewhere belongs to the property that owns the rule."""
+    files = anchor_files(prop)
+    present = [f for f in files if os.path.exists(os.path.join(REPO, f))]
+    if len(present) < floor:
+        raise AnalysisBroken("only %d of the %d anchor files of %s exist" % (len(present), len(files), prop))
+
+    def inside(f):
+        q = unoverlay(f.file)
+        cands = {relpath(q), relpath(os.path.realpath(q)) if os.path.exists(q) else relpath(q)}
+        return bool(cands & files)
+    keep = [f for f in r["findings"] if inside(f)]
+    r["notes"].append("scoped to the %d anchor files of %s (%d present); %d finding(s) in other files are not this property's"
+                      % (len(files), prop, len(present), len(r["findings"]) - len(keep)))
+    r["findings"] = keep
+    return r
+
+
 def load_known():
     p = os.path.join(VERIF, "known_findings.json")
     if not os.path.exists(p):
